@@ -65,6 +65,10 @@ CHECKS = {
    technique="enumeration of golden files written by the pinned code (4 page sizes x 3 header variants incl. the legacy SHA3 record) opened and continued under the current code, every mismatching page size refused byte-identically, and every file produced by a fixed history set parsed by the independent reader that encodes the pinned layout",
    text="Each golden file (nested buckets three deep, multi-page values, non-empty free list, 6 commits) must open with exactly the recorded contents in all three header variants, accept five further transactions (one reusing free pages) and a reopen; opening it with any other page size of the set must be refused without changing a byte; files written by the current tree at each page size must parse with fileck to the reference contents.",
    note="Trusted: fileck (pinned layout constants), the golden generation procedure (golden/README), refmodel."),
+ "C14": dict(engine="typex", cat="exploration", ref="DESIGN.md §2 C14",
+   technique="bounded-exhaustive enumeration of client programs generated from the complete public API surface (nightly rustdoc JSON of the current tree) x escape routes; each decided by rustc's type/borrow checker, and every program that compiles executed in a probe process with unmapped memory made inaccessible",
+   text="For every public method and trait method on every type reachable from a transaction (producers, arguments synthesised from the bounds) and every escape route (past the transaction's scope, past commit, returned from the owning function, leaked transaction past its database, moved / shared into scoped and spawned threads, plus argument and handle routes) the program must be rejected with a borrow / lifetime / Send error, or, if it compiles, run without a fault and with identical bytes while the file is rewritten and remapped; positive controls must compile.",
+   note="Trusted: rustc; the munmap-poisoning probe. API items the synthesiser cannot call are listed as coverage gaps in the evidence, never as violations."),
 }
 
 NA = {}
@@ -80,7 +84,7 @@ def main():
             "quick_cmd": f"scripts/check.sh {p['id']} quick",
             "thorough_cmd": f"scripts/check.sh {p['id']} thorough",
             "evidence_file": f"/verif/evidence/{p['id']}.json",
-            "replay_cmd_template": "mc/target/debug/vcheck replay {path}",
+            "replay_cmd_template": "mc/target/debug/vcheck replay {path}" if p["id"] != "C14" else "python3 -c \"import json,sys; print(json.load(open(sys.argv[1]))['program'])\" {path}   # prints the offending program; compile it against the jammdb rlib to reproduce",
             "engine": c["engine"],
             "level_claimed": {"category": c["cat"], "text": c["text"], "design_ref": c["ref"]},
             "level_note": c["note"],
@@ -108,6 +112,7 @@ def main():
             {"name": "schedx", "path": "mc/src/sched.rs, mc/src/schedx.rs, mc/src/c09.rs, mc/src/c13.rs", "serves_properties": ["C04", "C09", "C13"], "kind_free_text": "controlled scheduler for real OS threads running the real library (baton passing, lock model in the scheduler, context-bounded DFS over choice prefixes, subtree jobs spread over worker processes)"},
             {"name": "optx", "path": "mc/src/optx.rs", "serves_properties": ["C16"], "kind_free_text": "configuration-product enumeration with model comparison; odd page sizes in probe processes"},
             {"name": "compatx", "path": "mc/src/compatx.rs", "serves_properties": ["C15"], "kind_free_text": "golden-file and page-size-mismatch enumeration; write-side conformance through the independent parser"},
+            {"name": "typex", "path": "scripts/typex.py", "serves_properties": ["C14"], "kind_free_text": "client-program enumeration from rustdoc JSON, rustc as the decision procedure, probe runs for programs that compile"},
             {"name": "seqx", "path": "mc/src/seqx.rs", "serves_properties": ["C01", "C03", "C05", "C06", "C07", "C10"], "kind_free_text": "explicit-state BFS over histories of whole transactions executed on the real library in worker processes; state = history, key = structural digest of file + shared in-memory bookkeeping"},
         ],
         "checks": checks,
